@@ -768,6 +768,8 @@ def guard_agree_rule(rep, fn):
     for pos, root, c, ps in fn.calls(set(COPY)):
         d = core.strip_casts(c["args"][0])
         if d.get("k") == "ref" and key(d) in cursors:
+            if d.get("id") in core.ref_ids(c["args"][1]):
+                continue                    # an in-place shift (the source is taken relative to the cursor): not an output copy
             copies.append((pos, c, key(d)))
     by_guard = {}
     for pos, c, cur in copies:
@@ -890,6 +892,95 @@ def terminator_rule(rep, fn):
     return n_
 
 
+def table_index_rule(rep, fn):
+    """R-INDEX: a fixed table (global array of known length N) indexed by a variable: the variable's type cannot exceed
+    N - 1, or the index expression is masked / reduced below N, or a relational test of the variable dominates the access.
+    With none of these the index is whatever the input said."""
+    n = 0
+    u = fn.unit
+    for pos, root, x, ps in fn.nodes():
+        if x.get("k") != "sub":
+            continue
+        b = core.strip_casts(x["b"])
+        if b.get("k") != "ref" or b.get("dk") not in ("global", "static") or "t" not in b:
+            continue
+        bt = u.type(b["t"])
+        if bt["k"] != "arr" or not bt.get("n"):
+            continue
+        N = int(bt["n"])
+        i = core.strip_casts(x["i"])
+        if const_val(i) is not None:
+            continue
+        n += 1
+        inst = "table-index:%s[%s]#%d" % (b["n"], key(i)[:30], n)
+        desc = "%s: the index of %s[%d] is below %d" % (fn.name, b["n"], N, N)
+        # by type
+        it = u.type(x["i"]["t"]) if "t" in x["i"] else None
+        it0 = u.type(i["t"]) if "t" in i else None
+        if it0 is not None and it0["k"] == "int" and not it0.get("sg") and (1 << it0.get("w", 64)) <= N:
+            rep.proved("R-INDEX", fn, inst, desc, "index type has %d bits" % it0["w"], x.get("ln"))
+            continue
+        # by form: e & c, e % c, e >> k of a narrow value
+        def bounded(e):
+            e = core.strip_casts(e)
+            if e.get("k") == "bin" and e["op"] == "&":
+                cs = [const_val(core.strip_casts(q)) for q in (e["x"], e["y"])]
+                cs = [c_ for c_ in cs if c_ is not None]
+                if cs:
+                    return min(cs) + 1
+                a_, b_ = bounded(e["x"]), bounded(e["y"])
+                return min([v for v in (a_, b_) if v is not None], default=None)
+            if e.get("k") == "bin" and e["op"] == "%" and const_val(e["y"]) is not None:
+                return const_val(e["y"])
+            if e.get("k") == "bin" and e["op"] == "|":
+                a_, b_ = bounded(e["x"]), bounded(e["y"])
+                if a_ is not None and b_ is not None:
+                    m = max(a_, b_) - 1
+                    return (1 << m.bit_length())
+                return None
+            if e.get("k") == "bin" and e["op"] == ">>" and const_val(e["y"]) is not None and "t" in core.strip_casts(e["x"]):
+                t_ = u.type(core.strip_casts(e["x"])["t"])
+                if t_["k"] == "int" and not t_.get("sg"):
+                    return 1 << max(0, t_.get("w", 64) - const_val(e["y"]))
+                return None
+            if e.get("k") in ("ref", "sub", "mem", "un") and "t" in e:
+                t_ = u.type(e["t"])
+                if t_["k"] == "int" and not t_.get("sg") and t_.get("w", 64) <= 16:
+                    return 1 << t_["w"]
+            return None
+        bd = bounded(i)
+        if bd is not None and bd <= N:
+            rep.proved("R-INDEX", fn, inst, desc, "index expression is below %d by form" % bd, x.get("ln"))
+            continue
+        ids = core.ref_ids(i)
+        guarded = False
+        for bid in fn.reachable_blocks():
+            c = fn.blocks[bid].cond
+            if c is None or not fn.dominates(bid, pos[0]) or bid == pos[0]:
+                continue
+            for y, _ in walk(c):
+                if y.get("k") == "bin" and y["op"] in ("<", ">", "<=", ">=") and (core.ref_ids(y) & ids):
+                    guarded = True
+        # index built from values read out of the same table (a table-driven automaton): bounded by the table's content
+        from_table = False
+        for vid in ids:
+            defs = [y["y"] for _p, _r, y, _ps in fn.nodes() if y.get("k") == "bin" and y["op"] == "=" and core.is_ref(core.strip_casts(y["x"]), id=vid)]
+            for _p, _r, y, _ps in fn.nodes():
+                if y.get("k") == "decl":
+                    defs += [v_["init"] for v_ in y.get("vars", []) if v_.get("id") == vid and v_.get("init") is not None]
+            if defs and all(any(q.get("k") == "sub" and key(core.strip_casts(q["b"])) == b["n"] for q, _ in walk(d_)) or const_val(d_) is not None for d_ in defs):
+                from_table = True
+        if guarded:
+            rep.proved("R-INDEX", fn, inst, desc, "a relational test of the index dominates the access", x.get("ln"))
+        elif from_table:
+            rep.undecided("R-INDEX", fn, inst, desc, "the index is built from values read out of the table itself: bounded by the table's content, not decided here", x.get("ln"))
+        elif not ids:
+            rep.undecided("R-INDEX", fn, inst, desc, "index is not a variable expression", x.get("ln"))
+        else:
+            rep.violated("R-INDEX", fn, inst, desc, "no test, mask or narrow type bounds '%s': an input value of %d or more reads behind the table" % (key(i)[:40], N), x.get("ln"))
+    return n
+
+
 def stale_remaining_rule(rep, fn):
     """`left = end - cur` ties a remaining-size variable to a cursor.  Wherever the cursor is given a new value afterwards
     (assignment, or its address handed to a callee), the same block also updates `left` - otherwise the loop that follows
@@ -995,6 +1086,7 @@ def all_lints(rep, fn):
     parsed_addend_rule(rep, fn)
     guard_agree_rule(rep, fn)
     terminator_rule(rep, fn)
+    table_index_rule(rep, fn)
 
 
 def run_scope(rep, tier, us, exclude=(), only=None, budget_quick=45, extra_rules=()):
